@@ -100,8 +100,8 @@ def replay_history(hist, kind_cls, te):
 
 def model_histories(run: Run, tier: str, seed: int):
     wd = run.wd
-    body = open(tlc.SPEC + "/MC_ClassDB.tla").read()
-    cfg = open(tlc.SPEC + "/MC_ClassDB.cfg").read()
+    body = tlc.read_spec("MC_ClassDB.tla")
+    cfg = tlc.read_spec("MC_ClassDB.cfg")
     tlc.write_module(wd, "MC_ClassDB", body, cfg)
     res = tlc.require_ok(tlc.run_tlc(wd, "MC_ClassDB", workers=1, timeout=900), "MC_ClassDB exhaustive")
     run.add_tlc(res, "MC_ClassDB exhaustive state graph (VIEW hides history) + transition cover export")
